@@ -889,7 +889,8 @@ def single_conv_program(K, d, position='middle', cin=2, cout=3, L=None, bias=Tru
             'features': ['single-conv', position], 'traits': []}
 
 
-def reuse_program(rng, family='1d', same_size=True, with_bn=False, pre_bn_consumer=False):
+def reuse_program(rng, family='1d', same_size=True, with_bn=False, pre_bn_consumer=False,
+                  bn_variant=None):
     """One searchable conv applied to two network inputs (equal channel count, equal or different
     spatial size), joined on the time/height axis, followed by a conv, pooling and a classifier."""
     c = rng.randint(1, 3)
@@ -915,7 +916,16 @@ def reuse_program(rng, family='1d', same_size=True, with_bn=False, pre_bn_consum
         # the conv + BatchNorm *pair* is invoked twice
         bn = {'op': 'bn', 'name': 'sharedbn', 'c': co, 'bdim': 1 if family == '1d' else 2,
               'affine': True, 'eps': [1e-5, 1e-3, 2e-2][co % 3]}
-        ops += [dict(bn, src='a0', out='n0'), dict(bn, src='a1', out='n1', reuse=True)]
+        if bn_variant == 'one-site':
+            # the BatchNorm follows the FIRST invocation only: fusing it into the layer would also
+            # normalise the second invocation (PLiNIO has to refuse such a network)
+            ops += [dict(bn, src='a0', out='n0'), {'op': 'act', 'kind': 'ident', 'name': 'idn',
+                                                   'src': 'a1', 'out': 'n1'}]
+        elif bn_variant == 'two-bns':
+            # each invocation is followed by a BatchNorm of its own
+            ops += [dict(bn, src='a0', out='n0'), dict(bn, name='sharedbn2', src='a1', out='n1')]
+        else:
+            ops += [dict(bn, src='a0', out='n0'), dict(bn, src='a1', out='n1', reuse=True)]
         if pre_bn_consumer:
             # the raw (pre-BatchNorm) output of the SECOND invocation has another consumer: the
             # pair cannot be fused there (PLiNIO refuses such a network)
@@ -934,6 +944,7 @@ def reuse_program(rng, family='1d', same_size=True, with_bn=False, pre_bn_consum
     return {'family': family, 'inputs': inputs, 'ops': ops, 'out': 'o', 'excluded': [],
             'features': ['reuse', 'reuse-same' if same_size else 'reuse-diffsize', 'tcat'] +
             (['reuse-conv-bn-pair', 'bn'] if with_bn else []) +
+            (['reuse-bn-' + bn_variant] if with_bn and bn_variant else []) +
             (['reuse-pair-pre-bn-consumer'] if with_bn and pre_bn_consumer else []), 'traits': []}
 
 
